@@ -109,6 +109,27 @@ func (b *c08Builder) LenBytes(name string, v []byte) {
 	b.f = append(b.f, f)
 }
 
+// EntryHead: the status byte and the name of a file-list entry as one field, so that
+// mutations can switch between the encodings a sender may use (XMIT_SAME_NAME with an
+// inherited prefix length, one-byte vs four-byte name length) with hostile values.
+func (b *c08Builder) EntryHead(name string, flags byte, nm []byte) {
+	enc := append([]byte{flags | rp.XmitLongName}, append(le32(int32(len(nm))), nm...)...)
+	f := c08Field{name: name, enc: enc}
+	add := func(desc string, e []byte) {
+		f.alts = append(f.alts, e)
+		f.desc = append(f.desc, desc)
+	}
+	for _, l1 := range []byte{0, 1, 5, 200, 255} {
+		// inherited prefix longer than (or equal to, or shorter than) the previous name
+		add(fmt.Sprintf("same-name l1=%d long", l1), append([]byte{flags | rp.XmitLongName | rp.XmitSameName, l1}, append(le32(int32(len(nm))), nm...)...))
+		add(fmt.Sprintf("same-name l1=%d short", l1), append([]byte{(flags &^ rp.XmitLongName) | rp.XmitSameName, l1, byte(len(nm))}, nm...))
+	}
+	add("one-byte length", append([]byte{flags&^rp.XmitLongName | rp.XmitTopDir, byte(len(nm))}, nm...))
+	add("one-byte length 255 with short data", append([]byte{flags&^rp.XmitLongName | rp.XmitTopDir, 255}, nm...))
+	add("same-name l1=255 l2=255", append([]byte{(flags &^ rp.XmitLongName) | rp.XmitSameName, 255, 255}, bytes.Repeat([]byte{'q'}, 255)...))
+	b.f = append(b.f, f)
+}
+
 func (b *c08Builder) Raw(name string, v []byte) {
 	f := c08Field{name: name, enc: v}
 	if len(v) > 0 {
@@ -300,8 +321,12 @@ func c08Upload(opts []string, del bool) *c08Builder {
 		if e.name == "." {
 			fl |= rp.XmitTopDir
 		}
-		b.Byte(p+"flags", fl)
-		b.LenBytes(p+"name", []byte(e.name))
+		if i%2 == 0 {
+			b.Byte(p+"flags", fl)
+			b.LenBytes(p+"name", []byte(e.name))
+		} else {
+			b.EntryHead(p+"head", fl&^rp.XmitLongName, []byte(e.name))
+		}
 		b.Long(p+"size", int64(len(e.data)))
 		b.Int(p+"mtime", tm.Past, 0)
 		b.Int(p+"mode", e.mode, 0)
@@ -560,8 +585,12 @@ func c08ClientPullFields() (pre *c08Builder, payload *c08Builder) {
 		if e.Path == "." {
 			fl |= rp.XmitTopDir
 		}
-		b.Byte(p+"flags", fl)
-		b.LenBytes(p+"name", []byte(e.Path))
+		if i%2 == 0 {
+			b.Byte(p+"flags", fl)
+			b.LenBytes(p+"name", []byte(e.Path))
+		} else {
+			b.EntryHead(p+"head", fl&^rp.XmitLongName, []byte(e.Path))
+		}
 		b.Long(p+"size", int64(len(e.Data)))
 		b.Int(p+"mtime", int32(e.Mtime), 0)
 		b.Int(p+"mode", modeBits(e), 0)
@@ -685,7 +714,59 @@ func init() {
 			"oracle: the process neither crashes nor exits (a dying worker is attributed to the journalled case) and the daemon keeps serving; states/transitions = hostile sessions; non-trivial = session that got past the handshake",
 		Assum: []string{"count-like fields stay below 2^20 unless negative; every hostile peer closes its connection; stalls are outside the guarantee"},
 		Parts: func(tier string) []core.Part {
-			return []core.Part{{Name: "daemon", Build: c08BuildDaemon}, {Name: "client", Build: c08BuildClient}}
+			return []core.Part{{Name: "daemon", Build: c08BuildDaemon}, {Name: "client", Build: c08BuildClient}, {Name: "client-daemon", Build: c08BuildClientDaemon}}
 		},
 	})
+}
+
+// c08BuildClientDaemon: the daemon-mode handshake of the library client
+// (RunDaemon) against hostile greeting / status lines.
+func c08BuildClientDaemon(tier string) core.Source {
+	drive.Quiet()
+	greetings := []string{"@RSYNCD: 27\n", "@RSYNCD: 26\n", "@RSYNCD: 31.0\n", "@RSYNCD: 99999999999999999999.9\n", "@RSYNCD: abc\n", "@RSYNCD: \n", "garbage\n", "\n", "", strings.Repeat("A", 200000), "@RSYNCD: 27.\x00\n", "@RSYNCD: -27\n"}
+	statuses := []string{"@RSYNCD: OK\n", "@ERROR: access denied\n", "@ERROR", "@RSYNCD: AUTHREQD challenge\n", "@RSYNCD: EXIT\n", "motd line 1\nmotd line 2\n@RSYNCD: OK\n", "", strings.Repeat("m", 100000) + "\n@RSYNCD: OK\n", "\x00\x01\x02\n@RSYNCD: OK\n"}
+	_, pay := c08ClientPullFields()
+	var good []byte
+	good = append(good, le32(0x0c08)...)
+	for off := 0; off < len(pay.bytes()); off += 500 {
+		good = append(good, rp.EncodeFrame(rp.TagData, pay.bytes()[off:min(off+500, len(pay.bytes()))])...)
+	}
+	tails := [][]byte{good, nil, []byte("\xff\xff\xff\xff\xff\xff\xff\xff"), good[:10]}
+	type cs struct{ g, s, t int }
+	var cases []cs
+	for g := range greetings {
+		for s := range statuses {
+			for t := range tails {
+				cases = append(cases, cs{g, s, t})
+			}
+		}
+	}
+	const batch = 8
+	n := (len(cases) + batch - 1) / batch
+	return core.FuncSource{N: n, F: func(i int) core.Result {
+		lo, hi := i*batch, min((i+1)*batch, len(cases))
+		res := core.Result{Case: fmt.Sprintf("hostile daemon handshakes %d..%d against RunDaemon", lo, hi-1)}
+		errs := 0
+		for _, c := range cases[lo:hi] {
+			core.Note("C08-CASE daemon-handshake greeting=%q status=%q tail=%d", trunc(greetings[c.g], 20), trunc(statuses[c.s], 20), c.t)
+			stream := append(append([]byte(greetings[c.g]), statuses[c.s]...), tails[c.t]...)
+			dir := workDir()
+			client, err := rsyncclient.New([]string{"-rlt"}, rsyncclient.DontRestrict(), rsyncclient.WithStderr(io.Discard))
+			if err != nil {
+				res.Inconcl = err.Error()
+				return res
+			}
+			_, cerr := client.RunDaemon(context.Background(), &drive.RW{Reader: bytes.NewReader(stream), Writer: io.Discard}, "mod/", []string{filepath.Join(dir, "dst")})
+			cleanup(dir)
+			cnt(&res, "transitions", 1)
+			if cerr != nil {
+				errs++
+			}
+		}
+		cnt(&res, "states", res.Counters["transitions"])
+		cnt(&res, "traces_validated_against_impl", res.Counters["transitions"])
+		res.Nontrivial = errs > 0
+		res.Outcome = fmt.Sprintf("client-survived-handshake/errors>0=%v", errs > 0)
+		return res
+	}}
 }
